@@ -2,6 +2,7 @@ package proxy
 
 import (
 	"bytes"
+	"compress/gzip"
 	"context"
 	"encoding/base64"
 	"encoding/json"
@@ -9,16 +10,20 @@ import (
 	"io"
 	"net/http"
 	"net/url"
+	"strconv"
 	"strings"
 	"time"
 
 	spb "google.golang.org/genproto/googleapis/rpc/status"
 	"google.golang.org/grpc"
+	gzipenc "google.golang.org/grpc/encoding/gzip"
 	"google.golang.org/grpc/metadata"
 	"google.golang.org/grpc/status"
 	"google.golang.org/protobuf/encoding/protojson"
+	"google.golang.org/protobuf/proto"
 
 	"verif/internal/vschema"
+	"verif/internal/wire"
 )
 
 // ClientT is the client-side transcript of one call.
@@ -47,7 +52,9 @@ func (s *Script) requests(callID string) []chunk {
 		if i == 0 && !s.MetaPlan {
 			c.Script = s.planJSON()
 		}
-		if s.BigReq == i {
+		if s.MsgSize > 0 {
+			c.Data = sizedPayload(s.MsgSize, i)
+		} else if s.BigReq == i {
 			c.Data = bigPayload(100 + i)
 		} else if i%2 == 1 {
 			c.Data = []byte{0, byte(i), 0x80, 0xff}
@@ -60,6 +67,23 @@ func (s *Script) requests(callID string) []chunk {
 		out = append(out, c)
 	}
 	return out
+}
+
+// sizedPayload is a payload that is different for every message and neither
+// trivially compressible nor random: runs of a per-message byte interleaved
+// with a pseudo-random sequence.
+func sizedPayload(size, salt int) []byte {
+	b := make([]byte, size)
+	x := uint32(salt*2654435761 + 12345)
+	for i := range b {
+		if (i/64)%2 == 0 {
+			b[i] = byte(salt)
+		} else {
+			x = x*1664525 + 1013904223
+			b[i] = byte(x >> 24)
+		}
+	}
+	return b
 }
 
 func detailStrings(st *spb.Status) []string {
@@ -100,9 +124,13 @@ func runGRPC(ctx context.Context, cc *grpc.ClientConn, s *Script, callID string)
 	ctx = metadata.AppendToOutgoingContext(ctx, pairs...)
 	full := "/vf.px.Std/" + methodOf[s.Shape]
 	reqs := s.requests(callID)
+	var copts []grpc.CallOption
+	if s.Gzip {
+		copts = append(copts, grpc.UseCompressor(gzipenc.Name))
+	}
 	if s.Shape == "unary" {
 		out := vschema.NewMsg(chunkMD)
-		if err := cc.Invoke(ctx, full, reqs[0].msg(), out); err != nil {
+		if err := cc.Invoke(ctx, full, reqs[0].msg(), out, copts...); err != nil {
 			t.setErr(ctx, err)
 			return t
 		}
@@ -110,7 +138,7 @@ func runGRPC(ctx context.Context, cc *grpc.ClientConn, s *Script, callID string)
 		return t
 	}
 	desc := &grpc.StreamDesc{ClientStreams: s.Shape == "cs" || s.Shape == "bidi", ServerStreams: s.Shape == "ss" || s.Shape == "bidi"}
-	st, err := cc.NewStream(ctx, desc, full)
+	st, err := cc.NewStream(ctx, desc, full, copts...)
 	if err != nil {
 		t.setErr(ctx, err)
 		return t
@@ -127,6 +155,34 @@ func runGRPC(ctx context.Context, cc *grpc.ClientConn, s *Script, callID string)
 	plan := s.Client
 	if !desc.ClientStreams {
 		plan = []string{"s"} // grpc-go half-closes by itself
+	}
+	if s.Duplex {
+		// full duplex: the sends run on their own goroutine while this one
+		// receives (gRPC allows one sender and one receiver per stream)
+		done := make(chan struct{})
+		go func() {
+			defer close(done)
+			next := 0
+			for _, op := range plan {
+				switch op {
+				case "s":
+					if next < len(reqs) {
+						if err := st.SendMsg(reqs[next].msg()); err != nil {
+							return // the stream has ended: the status comes from RecvMsg
+						}
+					}
+					next++
+				case "c":
+					st.CloseSend()
+				default:
+					think(ctx, op)
+				}
+			}
+		}()
+		for recvOne() {
+		}
+		<-done
+		return t
 	}
 	next := 0
 	sendDead := false
@@ -182,6 +238,200 @@ func hasThink(plan []string) bool {
 	return false
 }
 
+// streamed reports whether the request body has to be produced while the
+// call is running (think time, or sends concurrent with the replies).
+func streamed(s *Script) bool { return s.Duplex || hasThink(s.Client) }
+
+// requestBody builds the body of an HTTP / gRPC-web request from the encoded
+// messages: in memory, or - for streamed scripts - a pipe fed by a goroutine
+// that executes the client plan (h2c sends each write as it comes). gz
+// compresses the stream as a whole (flushed after every message).
+func requestBody(ctx context.Context, s *Script, reqs []chunk, enc func(chunk) ([]byte, error), gz bool) (io.Reader, error) {
+	if !streamed(s) {
+		var body bytes.Buffer
+		var w io.Writer = &body
+		var zw *gzip.Writer
+		if gz {
+			zw = gzip.NewWriter(&body)
+			w = zw
+		}
+		for _, c := range reqs {
+			b, err := enc(c)
+			if err != nil {
+				return nil, err
+			}
+			w.Write(b)
+		}
+		if zw != nil {
+			zw.Close()
+		}
+		return bytes.NewReader(body.Bytes()), nil
+	}
+	pr, pw := io.Pipe()
+	go func() {
+		var w io.Writer = pw
+		var zw *gzip.Writer
+		if gz {
+			zw = gzip.NewWriter(pw)
+			w = zw
+		}
+		finish := func() {
+			if zw != nil {
+				zw.Close()
+			}
+			pw.Close()
+		}
+		next := 0
+		for _, op := range s.Client {
+			switch op {
+			case "s":
+				if next < len(reqs) {
+					b, err := enc(reqs[next])
+					if err != nil {
+						pw.CloseWithError(err)
+						return
+					}
+					if _, err := w.Write(b); err != nil {
+						return // the transport stopped reading: the call is over
+					}
+					if zw != nil {
+						if err := zw.Flush(); err != nil {
+							return
+						}
+					}
+				}
+				next++
+			case "c":
+				finish()
+				return
+			default:
+				think(ctx, op)
+			}
+		}
+		finish()
+	}()
+	return pr, nil
+}
+
+// runWeb executes the script as a gRPC-web client (binary framing over h2c;
+// per-message gzip when the script says so). The final status comes from the
+// trailer frame, or from the headers of a trailers-only response.
+func runWeb(ctx context.Context, hc *http.Client, base string, s *Script, callID string) ClientT {
+	var t ClientT
+	reqs := s.requests(callID)
+	enc := func(c chunk) ([]byte, error) {
+		b, err := proto.Marshal(c.msg())
+		if err != nil {
+			return nil, err
+		}
+		if s.Gzip {
+			return wire.Frame(wire.Gzip(b), true), nil
+		}
+		return wire.Frame(b, false), nil
+	}
+	rd, err := requestBody(ctx, s, reqs, enc, false)
+	if err != nil {
+		t.TransportErr = "marshal: " + err.Error()
+		return t
+	}
+	req, err := http.NewRequestWithContext(ctx, "POST", base+"/vf.px.Std/"+methodOf[s.Shape], rd)
+	if err != nil {
+		t.TransportErr = err.Error()
+		return t
+	}
+	req.Header.Set("Content-Type", "application/grpc-web+proto")
+	req.Header.Set("X-Grpc-Web", "1")
+	if s.Gzip {
+		req.Header.Set("Grpc-Encoding", "gzip")
+		req.Header.Set("Grpc-Accept-Encoding", "gzip")
+	}
+	req.Header.Set("X-Vf-Id", callID)
+	if s.MetaPlan {
+		req.Header.Set("X-Vf-Plan-Bin", encodeBin([]byte(s.planJSON())))
+	}
+	for _, kv := range s.MD {
+		v := string(kv.V)
+		if strings.HasSuffix(kv.K, "-bin") {
+			v = encodeBin(kv.V)
+		}
+		req.Header.Add(kv.K, v)
+	}
+	resp, err := hc.Do(req)
+	if err != nil {
+		t.TransportErr = err.Error()
+		t.TimedOut = ctx.Err() != nil
+		return t
+	}
+	defer resp.Body.Close()
+	body, err := io.ReadAll(resp.Body)
+	if err != nil {
+		t.TransportErr = "body: " + err.Error()
+		t.TimedOut = ctx.Err() != nil
+		return t
+	}
+	t.HTTPStatus = resp.StatusCode
+	wr := wire.DecodeWeb(body, false)
+	for i, raw := range wr.Msgs {
+		if wr.Flags[i]&1 != 0 {
+			if raw, err = wire.Gunzip(raw); err != nil {
+				t.BodyErr = fmt.Sprintf("reply %d: compressed flag set but not gzip: %v", i, err)
+				return t
+			}
+		}
+		m := vschema.NewMsg(chunkMD)
+		if err := proto.Unmarshal(raw, m); err != nil {
+			t.BodyErr = fmt.Sprintf("reply %d does not decode: %v", i, err)
+			return t
+		}
+		t.Responses = append(t.Responses, readChunk(m).sum(callID))
+	}
+	if len(wr.Rest) > 0 {
+		t.BodyErr = fmt.Sprintf("%d trailing bytes that are not a frame", len(wr.Rest))
+		return t
+	}
+	get := func(k string) (string, bool) {
+		if wr.HasTrail {
+			for tk, v := range wr.Trailer {
+				if strings.EqualFold(tk, k) && len(v) > 0 {
+					return v[0], true
+				}
+			}
+			return "", false
+		}
+		if v := resp.Header.Values(k); len(v) > 0 {
+			return v[0], true
+		}
+		return "", false
+	}
+	gs, ok := get("grpc-status")
+	if !ok {
+		t.BodyErr = fmt.Sprintf("no grpc-status in the trailer frame or the headers (HTTP %d, %d frames, %.80q)", resp.StatusCode, len(wr.Msgs), body)
+		return t
+	}
+	code, err := strconv.Atoi(gs)
+	if err != nil {
+		t.BodyErr = "grpc-status " + gs
+		return t
+	}
+	t.Code = int32(code)
+	if gm, ok := get("grpc-message"); ok {
+		t.Msg = wire.DecodeGrpcMessage(gm)
+	}
+	if d, ok := get("grpc-status-details-bin"); ok {
+		raw, err := wire.DecodeBin(d)
+		st := &spb.Status{}
+		if err == nil {
+			err = proto.Unmarshal(raw, st)
+		}
+		if err != nil {
+			t.BodyErr = "grpc-status-details-bin does not decode: " + err.Error()
+			return t
+		}
+		t.Details = detailStrings(st)
+	}
+	return t
+}
+
 func encodeBin(b []byte) string { return base64.RawStdEncoding.EncodeToString(b) }
 
 var jsonM = protojson.MarshalOptions{}
@@ -197,46 +447,18 @@ func runHTTP(ctx context.Context, hc *http.Client, base string, s *Script, callI
 		u := base + pathOf[s.Shape] + "/" + callID + "?script=" + url.QueryEscape(reqs[0].Script)
 		req, err = http.NewRequestWithContext(ctx, "GET", u, nil)
 	} else {
-		var body bytes.Buffer
-		for _, c := range reqs {
-			b, merr := jsonM.Marshal(c.msg())
-			if merr != nil {
-				t.TransportErr = "marshal: " + merr.Error()
-				return t
-			}
-			body.Write(b)
-		}
-		var rd io.Reader = bytes.NewReader(body.Bytes())
-		if hasThink(s.Client) {
-			// streamed request body (h2c): the client plan is executed on
-			// the body writer, with its think time
-			pr, pw := io.Pipe()
-			rd = pr
-			go func() {
-				next := 0
-				for _, op := range s.Client {
-					switch op {
-					case "s":
-						if next < len(reqs) {
-							b, _ := jsonM.Marshal(reqs[next].msg())
-							if _, err := pw.Write(b); err != nil {
-								return // the transport stopped reading: the call is over
-							}
-						}
-						next++
-					case "c":
-						pw.Close()
-						return
-					default:
-						think(ctx, op)
-					}
-				}
-				pw.Close()
-			}()
+		rd, berr := requestBody(ctx, s, reqs, func(c chunk) ([]byte, error) { return jsonM.Marshal(c.msg()) }, s.Gzip)
+		if berr != nil {
+			t.TransportErr = "marshal: " + berr.Error()
+			return t
 		}
 		req, err = http.NewRequestWithContext(ctx, "POST", base+pathOf[s.Shape], rd)
 		if req != nil {
 			req.Header.Set("Content-Type", "application/json")
+			if s.Gzip {
+				// compression is per stream on the HTTP front
+				req.Header.Set("Content-Encoding", "gzip")
+			}
 		}
 	}
 	if err != nil {
